@@ -16,7 +16,10 @@ MATCHERS: Dict[str, Any] = {}
 TRUSTED = [
     "Lean 4.33.0 kernel", "axioms: propext, Classical.choice, Quot.sound only (audited by #print axioms)",
     "harness/read_corr.py: FakeSock/FakeSelect stand for CPython socket/select (MSG_WAITALL short only at FIN, "
-    "ConnectionResetError at RST), differential testing of Model/ClientRead.lean vs pyrtma.client.Client.read_message",
+    "ConnectionResetError at RST), differential testing of Model/ClientRead.lean vs pyrtma.client.Client.read_message; "
+    "for several sessions also pyrtma.client.socket (hands out the next scripted FakeSock) and pyrtma.client.time (a clock "
+    "that moves only while a select waits out its timeout): Model/ClientReadLife.lean vs Client.connect / disconnect / "
+    "send_signal / read_message",
 ]
 
 
@@ -25,7 +28,7 @@ def _work(chunk):
     out = []
     for cid, case in chunk:
         try:
-            out.append((cid, R.run_case(cid, case), None))
+            out.append((cid, (R.run_life_case if case.get("life") else R.run_case)(cid, case), None))
         except R.WouldBlock:
             out.append((cid, None, "WouldBlock escaped"))
         except Exception as e:  # noqa: BLE001
@@ -64,19 +67,29 @@ def _feed(res: C.Result, cases: List[Any]):
         case = bycid[cid]
         obs = [l for l in blk if l.startswith("OBS ")]
         kinds = [o.split()[3].split(":")[0] for o in obs]
-        res.note_case(blk[1:], nontrivial=len(case["frames"]) >= 1)
+        life = bool(case.get("life"))
+        tag = case.get("tag", "?").split(":")[0]
+        ex.setdefault("generators", {}).setdefault(tag, 0)
+        ex["generators"][tag] += 1
         res.traces_validated += 1
         for k in kinds:
             ex.setdefault("outcomes", {}).setdefault(k, 0)
             ex["outcomes"][k] += 1
-        tag = case.get("tag", "?").split(":")[0]
-        ex.setdefault("generators", {}).setdefault(tag, 0)
-        ex["generators"][tag] += 1
-        ex.setdefault("ends", {}).setdefault(case["end"] + ("+tail" if case["tail"] else ""), 0)
-        ex["ends"][case["end"] + ("+tail" if case["tail"] else "")] += 1
-        jc = {"case": R.to_json(case), "protocol": blk}
+        if life:
+            cobs = [l.split() for l in blk if l.startswith("COBS ")]
+            res.note_case(blk[1:], nontrivial=len(cobs) >= 1)
+            for t in cobs:
+                ex.setdefault("life_connect_or_send_outcomes", {}).setdefault(t[3].split(":")[0], 0)
+                ex["life_connect_or_send_outcomes"][t[3].split(":")[0]] += 1
+            ex["life_sessions"] = ex.get("life_sessions", 0) + sum(1 for l in blk if l == "CALL connect")
+            jc = {"case": R.life_to_json(case), "protocol": blk}
+        else:
+            res.note_case(blk[1:], nontrivial=len(case["frames"]) >= 1)
+            ex.setdefault("ends", {}).setdefault(case["end"] + ("+tail" if case["tail"] else ""), 0)
+            ex["ends"][case["end"] + ("+tail" if case["tail"] else "")] += 1
+            jc = {"case": R.to_json(case), "protocol": blk}
         for d in r["corr"]:
-            res.corr_diffs.append({"name": "corr:M3/read_message", "diff": d, "case": jc})
+            res.corr_diffs.append({"name": "corr:M3/sessions" if life else "corr:M3/read_message", "diff": d, "case": jc})
         for v in r["props"].get(PROP, []):
             ex.setdefault("verdicts", {}).setdefault(v.split()[0], 0)
             ex["verdicts"][v.split()[0]] += 1
@@ -85,7 +98,12 @@ def _feed(res: C.Result, cases: List[Any]):
                 res.failures.append(C.Failure(clause=cl.split()[0], case=jc,
                                               detail=f"{cl}: impl observations {obs}",
                                               finding=C.match_finding(PROP, cl, jc, MATCHERS)))
-        if len(case["frames"]) >= 2 and len(set(kinds)) >= 3:
+        if life:
+            if tag == "life-random" and len(set(kinds)) >= 3:
+                res.sample({"tag": case.get("tag"), "calls": [l for l in blk if l.startswith("CALL")][:12],
+                            "impl": [" ".join(l.split()[:4]) for l in blk if l.split()[0] in ("OBS", "COBS", "UOBS")][:12],
+                            "verdicts": r["props"]}, cap=8)
+        elif len(case["frames"]) >= 2 and len(set(kinds)) >= 3:
             res.sample({"tag": case.get("tag"), "calls": [l for l in blk if l.startswith("CALL")],
                         "impl": [" ".join(o.split()[:4]) for o in obs], "verdicts": r["props"]})
 
@@ -114,6 +132,17 @@ def cases_for(res: C.Result, deep: bool):
         add(R.rand_case(rng))
     for _ in range(20000 if deep else 3000):
         add(R.rand_case(rng, malformed=True))
+    # several sessions of one client object (second layer of M3): connect / disconnect / lost connections between reads
+    def addl(c):
+        nonlocal n
+        cases.append((f"k{n}", R.normalise_life(c)))
+        n += 1
+    for c in R.life_directed():
+        addl(c)
+    for c in R.life_exhaustive(deep):
+        addl(c)
+    for _ in range(30000 if deep else 6000):
+        addl(R.life_rand_case(rng))
     return cases
 
 
@@ -124,8 +153,16 @@ def run(res: C.Result, deep: bool):
                 "sync_check x {FIN, idle}; cut at every byte offset of the last frame of sequences <= %d x {FIN, RST}; "
                 "3-frame queues x subscription change between reads; seeded random queues of <= 8 frames with "
                 "subscription changes, both header layouts, random segmenting; malformed streams (random bytes, "
-                "negative / huge lengths, boundary type ids); a case is non-trivial when it has >= 1 whole frame"
-                % ((4, 3) if deep else (3, 2)))
+                "negative / huge lengths, boundary type ids); a case is non-trivial when it has >= 1 whole frame.  "
+                "Several sessions of one Client object (real connect() / disconnect() / send_signal on scripted sockets "
+                "handed out by a socket shim): directed (a first session subscribed to a type or to all, ended by "
+                "disconnect / EOF under a read / reset under a send / connect() while connected, then a second connection "
+                "carrying the handshake ACKs followed by frames of the old types; reads before any connect; handshakes "
+                "without ACK, cut, with undecodable frames before the ACK); exhaustive second sessions (<= %d frames before "
+                "the ACK over 5 kinds, <= 2 after) x 4 endings x 2 old subscription states x 3 read argument classes; "
+                "seeded random histories of <= 4 sessions with subscription changes, sends on dead connections, "
+                "disconnects, both header layouts, random segmenting"
+                % ((4, 3, 2) if deep else (3, 2, 1)))
     res.assumptions.append("FakeSock contract: recv*(MSG_WAITALL) short only at FIN, ConnectionResetError at RST "
                            "(then EOF), blocking on an idle peer reported as outcome `blocked`")
     for i in range(0, len(cases), 30000):
@@ -183,8 +220,10 @@ def replay(body: Dict[str, Any]) -> int:
     if not jc or "case" not in jc:
         print("nothing replayable in this file")
         return 2
-    case = R.from_json(jc["case"])
-    blk = R.run_case("replay", case)
+    if jc["case"].get("life"):
+        blk = R.run_life_case("replay", R.life_from_json(jc["case"]))
+    else:
+        blk = R.run_case("replay", R.from_json(jc["case"]))
     out = C.run_driver("clientread", blk)
     print("\n".join(blk))
     print("\n".join(out))
